@@ -199,6 +199,41 @@ def pool_register(V, kh, kw, kind):
             ("scale of the exact divisor pair (equal input and output scales: rescale is exactly 1)", L(scale) == want_scale)]
 
 
+def pool_requant(V):
+    """a Quantize lowered to a 1x1 average pool (fused_quantize): the real generate_ofm_scaling_for_pooling hands quantise_scale the ratio
+    (double)ifm_scale / (double)ofm_scale of the two np.float32 scales of the model - the TFLite reference derivation - and programs the pair it
+    returns (the quantisation of that double is the `qs` lemma).  Symbolic float32 scales."""
+    import ethosu.vela.register_command_stream_generator as g
+    import ethosu.vela.numeric_util as nu
+    import ethosu.vela.scaling as sc
+    from ethosu.vela import api as a
+
+    si, so = V.extra("float", "ifm_scale", "f32"), V.extra("float", "ofm_scale", "f32")
+    rng = lambda x: z3.And(z3.fpGT(fp.F(x), z3.FPVal(2.0 ** -20, fp.F32)), z3.fpLT(fp.F(x), z3.FPVal(64.0, fp.F32)))  # noqa: E731
+    if V.symbolic:
+        V.assume(z3.And(rng(si), rng(so)))
+    elif not all(2.0 ** -20 < float(x) < 64.0 for x in (si, so)):
+        raise core.PathAbort("outside the range")
+    op = _Obj(kernel=_Obj(height=1, width=1), ifm=_Obj(quantization=_Obj(scale_f32=si, zero_point=0), data_type=a.NpuDataType.INT8),
+              ofm=_Obj(quantization=_Obj(scale_f32=so, zero_point=0)), activation=None, fused_quantize=True, rescale=None)
+    out, seen = [], []
+    emit = _Obj(cmd1_with_offset=lambda cmd, scale, shift: out.append((scale, shift)))
+    saved = sc.quantise_scale
+    sc.quantise_scale = lambda x: (seen.append(x), (1234567890, 33))[1]
+    try:
+        with core.shims((g, {"int": core.sint, "max": core.smax, "min": core.smin, "np": fp.SNUMPY}), (nu, {"np": fp.SNUMPY}), *_shims()):
+            g.generate_ofm_scaling_for_pooling(emit, op)
+    finally:
+        sc.quantise_scale = saved
+    if len(seen) != 1 or len(out) != 1:
+        return [("one scale derivation, one OFM_SCALE command", False)]
+    got = seen[0]
+    ref = z3.fpDiv(fp.RNE, fp.as_f64(si) if isinstance(si, fp.SFloat) else z3.FPVal(float(si), fp.F64), fp.as_f64(so) if isinstance(so, fp.SFloat) else z3.FPVal(float(so), fp.F64))
+    gotd = fp.as_f64(got) if isinstance(got, fp.SFloat) else z3.FPVal(float(got), fp.F64)
+    return [("the ratio handed to quantise_scale is (double)ifm_scale / (double)ofm_scale", gotd == ref),
+            ("the derived pair is what reaches OFM_SCALE", out[0] == (1234567890, 33))]
+
+
 def pool_rescale(V, n, rescale_bits):
     """quantise_pooling_scale with rescale_bits as generate_ofm_scaling_for_pooling passes them: shift stays below 64 and the
     pair still denotes 1/n within one unit of its own precision"""
@@ -509,7 +544,7 @@ def scale_cache_key(V, **params):
     return c08.scale_cache_key(V, **params)
 
 
-FUNCS = {"pool_register": pool_register, "scale_cache_key": scale_cache_key, "ew_select": ew_select, "prep_scales": prep_scales, "qs": qs, "rqs": rqs, "classes": classes, "pool": pool, "pool_rescale": pool_rescale, "addsub": addsub, "simple_addsub": simple_addsub, "mul": mul}
+FUNCS = {"pool_requant": pool_requant, "pool_register": pool_register, "scale_cache_key": scale_cache_key, "ew_select": ew_select, "prep_scales": prep_scales, "qs": qs, "rqs": rqs, "classes": classes, "pool": pool, "pool_rescale": pool_rescale, "addsub": addsub, "simple_addsub": simple_addsub, "mul": mul}
 
 
 def _windows(tier, seed):
@@ -530,6 +565,7 @@ def _windows(tier, seed):
 
 def instances(tier, seed):
     out = []
+    out.append(dict(key="pool_requant", fn="pool_requant", params={}))
     for kh, kw in ((1, 1), (2, 2), (3, 3), (5, 10), (7, 7), (2, 7)):
         for kind in ("f32", "f64", "py"):
             if (kh, kw, kind) == (1, 1, "f32"):
